@@ -185,8 +185,19 @@ def _child(wfd, fn, kwargs, crash_at, reverse, root, modules):
     os._exit(0)
 
 
-def attempt(fn, kwargs, crash_at, reverse, root, modules):
-    """Run one attempt in a forked child. -> dict(status, ops, result | crash_before | error)"""
+def attempt(fn, kwargs, crash_at, reverse, root, modules, restore=None):
+    """Run one attempt in a forked child. -> dict(status, ops, result | crash_before | error).
+    A child that is killed from outside (SIGKILL by the kernel under memory pressure) before it could report is not an
+    observation: the state is restored (callback) and the attempt repeated, at most twice."""
+    for retry in range(3):
+        out = _attempt_once(fn, kwargs, crash_at, reverse, root, modules)
+        if not (out["status"] == "harness_error" and out.get("exit", 0) < 0 and restore is not None):
+            return out
+        restore()
+    return out
+
+
+def _attempt_once(fn, kwargs, crash_at, reverse, root, modules):
     rfd, wfd = os.pipe()
     pid = os.fork()
     if pid == 0:
@@ -207,7 +218,7 @@ def attempt(fn, kwargs, crash_at, reverse, root, modules):
     code = os.waitstatus_to_exitcode(status)
     data = b"".join(chunks)
     if not data:
-        return dict(status="harness_error", ops=[], error=f"child exit {code} without report")
+        return dict(status="harness_error", ops=[], error=f"child exit {code} without report", exit=code)
     out = json.loads(data.decode())
     out["exit"] = code
     return out
